@@ -161,6 +161,7 @@ func verifSplitArray(data []byte, start int) (items []RawMessage, end int, ok bo
 	return nil, 0, false
 }
 
+func verifAssign(dstPtr any, srcPtr any) bool    { return false } // intercepted: *dst = *src if both point to the same (underlying) type
 func verifCopyShape(src any, dstPtr any) bool { return false } // intercepted: field-wise copy if shapes agree
 
 func verifBoundExceeded(why string) {} // intercepted: ends the path as a bound failure
@@ -234,6 +235,11 @@ func VerifStubDecoderDecode(d *_cbor.Decoder, dest any) error {
 			st.pos = len(st.data)
 			return nil
 		}
+	}
+	if VerifDepositValue != nil && verifAssign(dest, VerifDepositValue) {
+		// "the decoder produced this value": the prepared object has the destination's type
+		st.pos = len(st.data)
+		return nil
 	}
 	if VerifDepositValue != nil {
 		// typed decode of what the harness encoded: succeeds iff the destination has the same
